@@ -99,6 +99,7 @@ type FuncGen struct {
 	safety   bool
 	assumeSafe bool
 	anchors  map[string]string
+	hookMatched map[int]bool
 	nonEsc   map[ssa.Value]bool
 	localRefs []string // refs of non-escaping local allocations made so far (terms)
 	// localRefClasses: for a local ref, the heap classes in which it can hold data (fields of its struct type,
@@ -325,6 +326,35 @@ func (g *FuncGen) run() {
 	g.c.curTag = -1
 	g.curBlock = nil
 	g.finishPosts()
+	// a `ghost at call` clause that attached to no call site constrains nothing: the contract is stale (or the
+	// callee name is misspelt) - say so instead of silently proving less than the contract says
+	if g.contract != nil {
+		for i := range g.contract.Ghosts {
+			if !g.hookMatched[i] {
+				ga := g.contract.Ghosts[i]
+				n := ga.Callee
+				if ga.Ordinal != 0 {
+					n = fmt.Sprintf("%s#%d", n, ga.Ordinal)
+				}
+				hasCheck := false
+				for _, st := range ga.Stmts {
+					if st.Kind == "check" {
+						hasCheck = true
+					}
+				}
+				if !hasCheck {
+					// an effect clause for an operation this function happens not to perform (protocol contracts
+					// describe every operation of the protocol): harmless, but recorded
+					g.c.note(fmt.Sprintf("ghost at call %s in the contract of %s matched no call site (effect clause only)", n, g.fnName))
+					if os.Getenv("GOVC_LOOPS") != "" {
+						fmt.Fprintf(os.Stderr, "DEADHOOK %s: %s\n", g.fnName, n)
+					}
+					continue
+				}
+				g.unsup("`ghost at call %s` (with a check) matches no call in %s (stale-contract?)", n, g.fnName)
+			}
+		}
+	}
 }
 
 // assumeLemma asserts an instance of a (separately proved) lemma or a named axiom.
